@@ -629,7 +629,7 @@ attr * attr_new(char * key, char * value) {
 		len--;
 	}
 
-	if (value[len - 1] == '"') {
+	if (len && value[len - 1] == '"') {
 		value[len - 1] = '\0';
 	}
 
@@ -660,6 +660,11 @@ attr * parse_attributes(char * source) {
 
 		// Skip '='
 		pos += scan_len + 1;
+
+		// Skip optional whitespace between '=' and the value (allowed by the `attr` scanner)
+		while (source[pos] == ' ' || source[pos] == '\t') {
+			pos++;
+		}
 
 		// Get value
 		scan_len = scan_value(&source[pos]);
